@@ -277,7 +277,9 @@ func GenC12(rng *rand.Rand, thorough bool, emit func(*Sx)) {
 								probe("MAIL FROM:<p@x> ENVID=e1", on(cfg.DSN, 250, 504))
 								if !cfg.DSN {
 									probe("MAIL FROM:<p@x> RET=BOGUS", 504)
-									probe("MAIL FROM:<p@x> ENVID=", 504)
+									probe("MAIL FROM:<p@x> ENVID=+zz", 504)
+									// "KEY=" is not an esmtp-param (the value may not be empty): a syntax error, whatever KEY is
+									probe("MAIL FROM:<p@x> ENVID=", 501)
 								}
 								if !cfg.BinaryMIME {
 									probe("MAIL FROM:<p@x> body=binarymime", 504)
@@ -307,7 +309,8 @@ func GenC12(rng *rand.Rand, thorough bool, emit func(*Sx)) {
 								}
 								if !cfg.DSN && !(maxRcpt > 0 && acc >= maxRcpt) {
 									f.cmd("RCPT TO:<z3@x> NOTIFY=BOGUS", 504)
-									f.cmd("RCPT TO:<z4@x> ORCPT=", 504)
+									f.cmd("RCPT TO:<z4@x> ORCPT=bogus", 504)
+									f.cmd("RCPT TO:<z5@x> ORCPT=", 501)
 								}
 								for i := 0; i < 3; i++ {
 									rprobe("RCPT TO:<more@x>", true)
